@@ -194,3 +194,62 @@ Definition events_spec_ok (s : slave_st) (c : cred) (o : obs) : bool :=
   | EvStatus a, OStatus b => a =? b
   | _, _ => false
   end.
+
+(* ---- the level a request is granted (APIHandler.prepare) ---------------------------------------------------------------
+   Hand-written from the API specification: a request that carries an Authorization header is judged by that header
+   alone — a token that verifies (consumer origin, signed with the CURRENT password hash of its user) gives that user's
+   level, anything else gives none; only a request WITHOUT a header is admin when the admin password is empty (the
+   factory state).  How a header is verified is property C10; here only the order of the two decisions matters. *)
+Definition grant_spec (present valid admin_empty : bool) (token_level : Z) : Z :=
+  if present then (if valid then token_level else LV_NONE)
+  else (if admin_empty then LV_ADMIN else LV_NONE).
+
+(* ---- credentials as state: short histories of admin requests that touch the passwords --------------------------------
+   Passwords are abstract: 0 is the empty password, n > 0 is "password number n".  The state is the three current
+   passwords.  A token is (user, password it was signed with): it verifies iff that is the user's current password.
+   Operations (all on /device, admin): set a user's password (PATCH), restore the device document (PUT — "password
+   fields are ignored", the passwords stay), change another attribute (PATCH).  An operation takes effect iff the
+   specification serves it.  Factory reset (POST /reset factory) legitimately empties the passwords; not used. *)
+Inductive user := UAdmin | UNormal | UViewonly.
+Definition user_level (u : user) : Z := match u with UAdmin => LV_ADMIN | UNormal => LV_NORMAL | UViewonly => LV_VIEWONLY end.
+
+Record pwstate := { pw_admin : Z; pw_normal : Z; pw_viewonly : Z }.
+Definition pw_init : pwstate := {| pw_admin := 0; pw_normal := 0; pw_viewonly := 0 |}.
+Definition pw_of (st : pwstate) (u : user) : Z :=
+  match u with UAdmin => pw_admin st | UNormal => pw_normal st | UViewonly => pw_viewonly st end.
+Definition pw_set (st : pwstate) (u : user) (p : Z) : pwstate :=
+  match u with
+  | UAdmin => {| pw_admin := p; pw_normal := pw_normal st; pw_viewonly := pw_viewonly st |}
+  | UNormal => {| pw_admin := pw_admin st; pw_normal := p; pw_viewonly := pw_viewonly st |}
+  | UViewonly => {| pw_admin := pw_admin st; pw_normal := pw_normal st; pw_viewonly := p |}
+  end.
+
+Inductive credential := CrNone | CrToken (u : user) (p : Z) | CrGarbage.
+Inductive op := OpSetPw (u : user) (p : Z) | OpPutDevice | OpPatchOther.
+Definition op_meth (o : op) : meth := match o with OpPutDevice => PUT | _ => PATCH end.
+Definition apply_op (o : op) (st : pwstate) : pwstate := match o with OpSetPw u p => pw_set st u p | _ => st end.
+
+(* the facts of a credential in a state, then the level by any grant function g *)
+Definition cred_level (g : bool -> bool -> bool -> Z -> Z) (st : pwstate) (c : credential) : Z :=
+  let ae := pw_admin st =? 0 in
+  match c with
+  | CrNone => g false false ae LV_NONE
+  | CrToken u p => g true (pw_of st u =? p) ae (user_level u)
+  | CrGarbage => g true false ae LV_NONE
+  end.
+
+Definition step_spec (st : pwstate) (o : op) (c : credential) : pwstate * bool :=
+  if required_spec RDevice (op_meth o) <=? cred_level grant_spec st c then (apply_op o st, true) else (st, false).
+
+(* a history: operations with the credential used and what was observed; then probes (URL shape, method, credential,
+   observed) on the final state.  true = the real application did what the specification prescribes throughout *)
+Definition hstep := (op * credential * obs)%type.
+Definition hprobe := (string * meth * credential * obs)%type.
+
+Fixpoint hist_spec_ok (st : pwstate) (steps : list hstep) (probes : list hprobe) : bool :=
+  match steps with
+  | (o, c, ob) :: r =>
+      spec_ok 0 (route_template RDevice) (op_meth o) (cred_level grant_spec st c) true ob
+      && hist_spec_ok (fst (step_spec st o c)) r probes
+  | [] => forallb (fun p : hprobe => let '(t, m, c, ob) := p in spec_ok 0 t m (cred_level grant_spec st c) true ob) probes
+  end.
